@@ -93,9 +93,13 @@ def main():
         if cfg_value_ok(s):
             x = via_config(["reserved_space = " + s])
             r["cfg_size"] = {"v": x["v"]["reserved_space"]} if "v" in x else x
-            x = via_config(["expire.enabled = true", "expire.mode = age", "expire.override_lease_duration = " + s])
+            # the expire.* values mean the same whether expiration is switched on or not (with it off the lease checker
+            # still reports what the configured policy would reclaim): alternate
+            en = "expire.enabled = %s" % ("true" if i % 2 == 0 else "false")
+            r["expire_enabled"] = (i % 2 == 0)
+            x = via_config([en, "expire.mode = age", "expire.override_lease_duration = " + s])
             r["cfg_dur"] = {"v": x["v"]["expiration_override_lease_duration"]} if "v" in x else x
-            x = via_config(["expire.enabled = true", "expire.mode = cutoff-date", "expire.cutoff_date = " + s])
+            x = via_config([en, "expire.mode = cutoff-date", "expire.cutoff_date = " + s])
             r["cfg_date"] = {"v": x["v"]["expiration_cutoff_date"]} if "v" in x else x
         out["cases"].append(r)
 
